@@ -862,31 +862,45 @@ def depKindEntry (noDeps : Bool) (src : Sig) (g : Sig) : Toks :=
   else if src.depIsConcrete then [i "_"]
   else [i g.ident]
 
+/-- the unimock derivation `::entrait::__unimock::unimock(args)`, bare or inside `cfg_attr(test, ..)`:
+    the whole meta item -/
+def Attr.unimockArgs (a : Attr) : Option Toks :=
+  match a.inner with
+  | [.ident "cfg_attr", .group .paren (.ident "test" :: .punct ',' :: rest)] =>
+      if classifyMock rest == some .unimock then some rest else none
+  | ts => if classifyMock ts == some .unimock then some ts else none
+
+/-- the `unmock_with` entries: one per method, pairing source function and generated method -/
+def unmockEntries (noDeps : Bool) (srcs : List FnItem) (im : GenImpl) : List Toks :=
+  (srcs.zip (im.members.filterMap GenMember.sig?)).map (fun sg => depKindEntry noDeps sg.1.sig sg.2)
+
+/-- `unmock_with = [e₁, …, eₙ]`, absent when there is no method -/
+def unmockSpec (entries : List Toks) : List Toks :=
+  if entries.isEmpty then [] else [[i "unmock_with", p '=', brackets (joinSep [p ','] entries)]]
+
+/-- `::entrait::__unimock::unimock(prefix = ::entrait::__unimock [, api = ..] [, unmock_with = [..]])` -/
+def unimockSpec (mockApi : Option String) (single : Bool) (unmock : List Toks) : Toks :=
+  let prefix_ : Toks := [i "prefix", p '='] ++ unimockPrefix
+  let api : List Toks :=
+    match mockApi with
+    | some m => [[i "api", p '='] ++ (if single then [brackets [i m]] else [i m])]
+    | none => []
+  unimockPath ++ [parens (joinSep [p ','] (prefix_ :: api ++ unmock))]
+
+/-- the documented arguments of the unimock derivation -/
+def expectedUnimock (o : Opts) (item : Item) (view : View) : Toks :=
+  unimockSpec o.mockApi (item.mode == .fn)
+    (match item.mode, mainImpl? view with
+     | .trait, _ => []
+     | _, some im => unmockSpec (unmockEntries o.noDepsValue item.sourceFns im)
+     | _, none => [])
+
 def P_C11 (v : Variant) (attr : Toks) (item : Item) (view : View) : Bool :=
   match effectiveOpts v attr item, mainTrait? view with
   | some o, some t =>
-      let found := t.attrs.filterMap (fun a =>
-        match a.inner with
-        | [.ident "cfg_attr", .group .paren (.ident "test" :: .punct ',' :: rest)] =>
-            if unimockPath.isPrefixOf rest then some rest else none
-        | ts => if unimockPath.isPrefixOf ts then some ts else none)
-      match found with
+      match t.attrs.filterMap Attr.unimockArgs with
       | [] => true
-      | [ps] =>
-          let prefix_ : Toks := [i "prefix", p '='] ++ unimockPrefix
-          let api : List Toks :=
-            match o.mockApi with
-            | some m => [[i "api", p '='] ++ (if item.mode == .fn then [brackets [i m]] else [i m])]
-            | none => []
-          let unmock : List Toks :=
-            match item.mode, mainImpl? view with
-            | .trait, _ => []
-            | _, some im =>
-                let entries := (item.sourceFns.zip (im.members.filterMap GenMember.sig?)).map
-                  (fun (src, g) => depKindEntry o.noDepsValue src.sig g)
-                if entries.isEmpty then [] else [[i "unmock_with", p '=', brackets (joinSep [p ','] entries)]]
-            | _, none => []
-          ps == unimockPath ++ [parens (joinSep [p ','] (prefix_ :: api ++ unmock))]
+      | [ps] => ps == expectedUnimock o item view
       | _ => false
   | _, _ => item.mode == .impl
 
